@@ -5,7 +5,12 @@ restored from its mnemonic, a wallet removal) once undisturbed and then with the
 abandoned right after commit k (harness/internal/dbwrap), reopened on the same directory while the
 node has moved on; final reports are compared with the undisturbed twin, and every run (twin and
 crashed) is replayed on the extracted Ledger model (ocaml/C01 driver) and checked against the
-chain specification."""
+chain specification.
+Import-only family (harness/internal/cfsim/importonly.go): no READY wallet in the database at the crash —
+the only wallet is being restored (crash right after ImportWallet / between two rescan batches of 1000
+heights), the node abandons blocks below or above the rescan cursor and grows (by a few blocks, or by more
+than the 2000-block margin of Start's fast-forward) while the wallet is down; restart, the rescan resumes
+and finishes; compared with the twin that never stopped, the model and the chain specification."""
 import json
 import os
 import re
@@ -35,7 +40,11 @@ def main(tier, replay=None):
     if exe is None:
         return c.finish(TRUSTED, no_input_break="extraction/OCaml build of the Ledger model failed: " + err[-1500:])
 
-    n = 40 if tier == "quick" else 400
+    # every sixth history (index % 6 == 4) belongs to the import-only family of cmd/c06 (the only wallet
+    # of the database is being restored when the process stops; the node is reorganised below / above the
+    # rescan cursor and grows while the wallet is down); with 48 histories the quick tier has 40 ordinary
+    # ones as before, 7 import-only ones of ~1100 blocks and one of ~3100 blocks (fast-forward of Start)
+    n = 48 if tier == "quick" else 480
 
     if c.escalated:   # a modelled Go function changed since the pin (c.drift): look harder, no verdict from drift alone
 
@@ -162,7 +171,9 @@ def main(tier, replay=None):
         "distinct_nontrivial": len(distinct),
         "rule": "one evaluation = one crashed replay of a generated history (script of 25-70 operations: 1-4 wallets created, addresses, blocks with random "
                 "transactions, reorgs of depth 1-3, lagging announcements, one wallet restored from its mnemonic, one wallet removed; plus long histories "
-                "reaching the 1000-height import batch and the 2000-block fast-forward of Start): crash right after commit k (sampled in the quick tier, every "
+                "reaching the 1000-height import batch and the 2000-block fast-forward of Start; plus the import-only family: the only wallet of the database is "
+                "being restored, every commit of the restore and of its rescan batches is a crash point, the node is reorganised below/above the rescan cursor and "
+                "grows by a few or by more than 2000 blocks while the wallet is down): crash right after commit k (sampled in the quick tier, every "
                 "k in the thorough tier; 25% of the runs crash again after 1-6 further commits, some a third time), the node performs 0-3 further chain "
                 "operations while the wallet is down, reopen on the same directory, remaining operations, final snapshot compared with the undisturbed twin. "
                 "distinct_nontrivial = distinct (history, crash contexts) pairs among runs in which a crash happened. " + stats,
